@@ -304,6 +304,14 @@ func runWriterHistory(cs *drv.Case, ops []wOp, o writerOpts) bool {
 						return true
 					}
 				}
+				if flushedOnce && len(want) > 0 {
+					// a later Flush of the same bytes writer publishes exactly what was written since the previous one
+					if !bytes.Equal(target, want) {
+						fail("bytes-writer-reflush", i, "after a later Flush the target holds %d bytes, want the %d bytes written since the previous Flush (first diff at %d)", len(target), len(want), firstDiff(target, want))
+						return true
+					}
+					cs.C.Obs("bytes-writer re-flushes judged", 1)
+				}
 				flushedOnce = true
 			} else {
 				sinkFails := o.failAt > 0 && sink.Calls >= o.failAt
@@ -346,7 +354,7 @@ func runWriterHistory(cs *drv.Case, ops []wOp, o writerOpts) bool {
 				}
 			}
 		}
-		if !failed && !(o.bytesWriter && flushedOnce) {
+		if !failed {
 			if got := w.WrittenLen(); got != unflushed {
 				fail("writtenlen-mismatch", i, "WrittenLen() = %d, want %d unflushed bytes", got, unflushed)
 				return true
